@@ -3,7 +3,7 @@ CrossHair (z3 back end) searches its postcondition for a counterexample over all
 within the stated preconditions.  chr(92) etc. not needed here."""
 from typing import List, Tuple
 
-from chmpy.core.element import Element, chemical_formula
+from chmpy.core.element import Element, chemical_formula, _ELEMENT_DATA
 from verif.props.ref_elements import SYMBOLS, NAMES
 
 ALPHABET = "abcdefghijklmnopqrstuvwxyzABCDEFGHIJKLMNOPQRSTUVWXYZ0123456789 _-"
@@ -18,7 +18,10 @@ def _lookup(x):
 
 
 def _row_ok(e, z: int) -> bool:
-    return e.atomic_number == z and e.symbol == SYMBOLS[z - 1] and e.name.lower() == NAMES[z - 1]
+    # the element object carries row z of the table: name and symbol (independent reference), radii and mass (the tabulated row)
+    n, s, cov, vdw, m = _ELEMENT_DATA[z - 1]
+    return (e.atomic_number == z and e.symbol == SYMBOLS[z - 1] and e.name.lower() == NAMES[z - 1]
+            and e.cov == cov and e.vdw == vdw and e.mass == m)
 
 
 def _number_total(n: int) -> bool:
